@@ -28,7 +28,7 @@ RULE = (
 ARG_KINDS = ["pyfloat", "npfloat", "array0d", "vector", "matrix", "rank3", "tuple", "dict", "nested"]
 OUT_KINDS = ["pyfloat", "npfloat", "array", "array2", "ab_tuple", "ab_dict"]
 DEP_KINDS = ["ignore", "shape", "len_type", "compare_branch", "nograd_floor", "nograd_sign_argmax", "loop_count", "getval_free_const",
-             "where_cond"]
+             "where_cond", "cast_astype_int", "cast_array_int", "cast_full_int", "cast_astype_bool"]
 OPERATORS = ["grad", "value_and_grad", "elementwise_grad", "jacobian", "hessian", "make_vjp", "make_jvp", "deriv", "grad_and_aux", "make_hvp",
              "tensor_jacobian_product", "make_jvp_reversemode"]
 
@@ -99,6 +99,19 @@ def make_const_fn(dep, outk):
             s = float(ns.sum(ns.floor(leaf) + ns.ceil(leaf) + ns.round(leaf))) + 0.5
         elif dep == "nograd_sign_argmax":
             s = float(ns.sum(ns.sign(leaf))) + float(ns.argmax(leaf)) + float(ns.count_nonzero(leaf > 0.2)) + 0.25
+        elif dep.startswith("cast_"):
+            # a conversion to an integer / boolean type is piecewise constant: the value stays inside the traced computation (no float()),
+            # so the derivative has to be an exact zero by the conversion's own rule
+            t = ns.array(leaf * 3.0)
+            if dep == "cast_astype_int":
+                q = t.astype(int)
+            elif dep == "cast_array_int":
+                q = ns.array(t, dtype=int)
+            elif dep == "cast_full_int":
+                q = ns.full((2,), ns.sum(t), dtype=int)
+            else:
+                q = t.astype(bool)
+            s = ns.sum(q * 1.0) * 0.5 + 0.25
         elif dep == "loop_count":
             s = 0.0
             for _ in range(int(ns.floor(ns.abs(ns.sum(leaf)))) % 3 + 1):
@@ -279,6 +292,21 @@ def const_body(c):
         if isinstance(e, NotImplementedError) and "not defined" in str(e):
             return raised(e, op, sample=sample)  # a missing rule for building the (outer-traced) output is loud and allowed
         return fail("exception_for_constant", describe_exc(e), bucket("exception"), sample=sample)
+    if nested != "no":
+        # the result was captured INSIDE the outer differentiation: a zero that multiplies the outer variable is legitimately a value of
+        # the outer trace there (it is unboxed for the exactness check; the outer trace ended normally)
+        from autograd.tracer import getval as _getval
+
+        def _unbox(v):
+            if isinstance(v, tuple):
+                return tuple(_unbox(e) for e in v)
+            if isinstance(v, list):
+                return [_unbox(e) for e in v]
+            if isinstance(v, dict):
+                return {k: _unbox(e) for k, e in v.items()}
+            return _getval(v)
+
+        got = _unbox(got)
     if has_box(got):
         return fail("tracer_leak", "result contains a tracer", bucket("tracer_leak"), sample=sample)
     if not is_exact_zero_of(got, want):
@@ -343,7 +371,10 @@ def nograd_calls():
     for n in ["allclose", "array_equal", "array_equiv"]:
         T[n] = B(n) + [("x,x", lambda ns, x, n=n: getattr(ns, n)(x, x))]
     T["greater"] += [("op", lambda ns, x: x > _c(onp.shape(x))), ("rop", lambda ns, x: _c(onp.shape(x)) > x)]
-    T["less_equal"] += [("op", lambda ns, x: x <= 0.3)]
+    T["less_equal"] += [("op", lambda ns, x: x <= 0.3), ("op_arr", lambda ns, x: x <= _c(onp.shape(x))), ("rop", lambda ns, x: _c(onp.shape(x)) >= x)]
+    T["greater_equal"] += [("op", lambda ns, x: x >= 0.3), ("op_arr", lambda ns, x: x >= _c(onp.shape(x))), ("rop", lambda ns, x: _c(onp.shape(x)) <= x),
+                           ("rop_scalar", lambda ns, x: 0.3 <= x)]
+    T["less"] += [("op", lambda ns, x: x < _c(onp.shape(x))), ("rop", lambda ns, x: _c(onp.shape(x)) > x)]
     T["equal"] += [("op", lambda ns, x: x == x)]
     T["not_equal"] += [("op", lambda ns, x: x != 0.5)]
     T["floor_divide"] += [("x,scalar", lambda ns, x: ns.floor_divide(x, 0.7))]
@@ -395,6 +426,13 @@ def nograd_body(c):
     frac = x - onp.round(x)
     x = onp.where(onp.abs(frac) < 0.12, x + 0.25, x)
     x = onp.where(onp.abs(x - onp.round(x, 1)) < 0.012, x + 0.03, x)  # round(x, 1) kinks
+    if c.chance(1, 5):
+        # non-finite entries: the non-differentiable functions (comparisons above all) must still answer exactly as NumPy does
+        x = onp.array(x)
+        flat = x.reshape(-1)
+        flat[c.int(0, flat.size - 1)] = onp.nan
+        if c.bool():
+            flat[c.int(0, flat.size - 1)] = c.choice([onp.inf, -onp.inf])
     x.flags.writeable = False
     sample = {"fn": name, "slot": slot, "shape": list(shape), "vseed": vseed}
     bucket = lambda k: f"C14|nograd:{name}|{k}"
@@ -438,14 +476,70 @@ def nograd_body(c):
         if d:
             return fail("primal_mismatch", f"{name} under {mode} mode differs from NumPy: {d}", bucket("primal_mismatch"), sample=sample)
         if mode == "rev":
-            if onp.shape(got) != tuple(shape) or not onp.array_equal(onp.asarray(got), want):
+            if onp.shape(got) != tuple(shape) or not onp.array_equal(onp.asarray(got), want, equal_nan=True):
                 return fail("wrong_value", f"grad(sum(x*w(n(x)))) = {onp.asarray(got).tolist()} expected exactly {want.tolist()}"[:300], bucket("law_rev"), sample=sample)
         else:
             wt = float(onp.sum(v * want))
-            if abs(float(t) - wt) > 1e-13 * max(1.0, abs(wt)):
+            if not ((onp.isnan(wt) and onp.isnan(float(t))) or float(t) == wt or abs(float(t) - wt) <= 1e-13 * max(1.0, abs(wt))):
                 return fail("wrong_value", f"jvp of sum(x*w(n(x))) = {float(t)!r} expected {wt!r}", bucket("law_fwd"), sample=sample)
     c.features.update(fn=name, slot=slot)
     return ok(nontrivial=not comparison, key=json.dumps([name, slot, list(shape)]), labels=["fn=" + name], sample=sample)
+
+
+def masked_body(c):
+    """Entries a mask does not select are independent of the argument: their derivative is an exact zero even when the value flowing into the
+    unselected branch is non-finite (the `safe where` idioms)."""
+    import autograd
+    import autograd.numpy as anp
+
+    shape = c.choice([(4,), (2, 3), (5,)])
+    vseed = c.seed()
+    x = values.generic(vseed, [shape], -1.5, 1.5)[0][0]
+    w = values.direction(vseed, shape, 3)
+    idiom = c.choice(["sqrt_of_where", "where_of_sqrt", "where_of_log", "where_of_div", "log_of_where"])
+    mode = {"sqrt_of_where": "rev", "log_of_where": "rev"}.get(idiom, c.choice(["fwd", "rev_masked_only"]))
+    m = x > 0.2
+    sample = {"idiom": idiom, "mode": mode, "shape": list(shape), "vseed": vseed}
+    if not m.any() or m.all():
+        return Outcome("numpy_rejects", detail="mask selects all or nothing", sample=sample)
+
+    def f(t):
+        if idiom == "sqrt_of_where":
+            return anp.sum(anp.sqrt(anp.where(t > 0.2, t, 0.0)) * w)
+        if idiom == "log_of_where":
+            return anp.sum(anp.log(anp.where(t > 0.2, t, 1.0)) * w)
+        if idiom == "where_of_sqrt":
+            return anp.sum(anp.where(t > 0.2, anp.sqrt(t), 0.0) * w)
+        if idiom == "where_of_log":
+            return anp.sum(anp.where(t > 0.2, anp.log(t), 0.0) * w)
+        return anp.sum(anp.where(t > 0.2, 1.0 / (t - 0.2 * (t <= 0.2)), 0.0) * w)
+
+    d = {"sqrt_of_where": 0.5 / onp.sqrt(onp.where(m, x, 1.0)), "where_of_sqrt": 0.5 / onp.sqrt(onp.where(m, x, 1.0)), "log_of_where": 1.0 / onp.where(m, x, 1.0),
+         "where_of_log": 1.0 / onp.where(m, x, 1.0), "where_of_div": -1.0 / onp.where(m, x, 1.0) ** 2}[idiom]
+    want = onp.where(m, d * w, 0.0)
+    try:
+        with warnings.catch_warnings():
+            warnings.simplefilter("ignore")
+            if mode == "fwd":
+                v = values.direction(vseed, shape, 4)
+                got = float(autograd.make_jvp(f)(x)(v)[1])
+                if not abs(got - float(onp.sum(want * v))) <= 1e-12 * max(1.0, abs(float(onp.sum(want * v)))):
+                    return fail("not_exact_zero", f"{idiom}: forward-mode derivative {got!r}, expected {float(onp.sum(want * v))!r} (unselected entries contribute exactly zero)",
+                                f"C14|masked|{idiom}|fwd", sample=sample)
+            else:
+                got = onp.asarray(autograd.grad(f)(x))
+                if mode == "rev":
+                    bad = not onp.allclose(got, want, rtol=1e-12, atol=0) or not onp.array_equal(got[~m], onp.zeros(int((~m).sum())))
+                else:  # the reverse pass of these idioms is non-finite upstream of where at the unselected entries: only the selected ones are compared
+                    bad = not onp.allclose(got[m], want[m], rtol=1e-12, atol=0)
+                if bad:
+                    return fail("not_exact_zero", f"{idiom}: gradient {got.tolist()} expected {want.tolist()} (exact zeros where the mask does not select)",
+                                f"C14|masked|{idiom}|rev", sample=sample)
+    except Exception as e:
+        if not from_autograd(e):
+            raise
+        return fail("exception_for_constant", describe_exc(e), f"C14|masked|{idiom}|exception", sample=sample)
+    return ok(nontrivial=True, key=json.dumps([idiom, mode, list(shape), m.tolist()]), labels=["masked", "idiom=" + idiom, "mode=" + mode], sample=sample)
 
 
 def finalize(agg):
@@ -471,6 +565,7 @@ def finalize(agg):
 PROP = Prop("C14", [
     Test("constant_programs", const_body, quick=8000, thorough=40000, shard_size=400),
     Test("nograd_set", nograd_body, quick=8000, thorough=40000, shard_size=400),
+    Test("masked_branches", masked_body, quick=1500, thorough=10000, shard_size=250),
 ], RULE, assumptions=[
     "raw NumPy decides local constancy and the reference value/type of every non-differentiable function",
 ], finalize=finalize)
